@@ -8,8 +8,8 @@ Follows conn.go:
   * `Event.take`    ↔ `(*Conn).waitResponse`, branch `id == rid`: the 8 header bytes are skipped, the
                       read lock stays with the caller (returned as `lock`), `c.leave()`.
   * `Event.yield`   ↔ branch "someone else's response": `c.rlock.Unlock()` and retry.
-  * `Event.lone`    ↔ branch `c.concurrency() == 1`: `io.ErrNoProgress`, read lock released, the
-                      conn stays open and the foreign frame stays where it is.
+  * `Event.lone`    ↔ branch `c.concurrency() == 1`: `io.ErrNoProgress`, the conn is closed (since /repo bb4e500;
+                      before, it stayed open with the foreign frame in place), read lock released.
   * `Event.peekErr` ↔ `peekResponseSizeAndID` failed (deadline, EOF, closed): `c.conn.Close()`.
   * `Event.close`   ↔ `(*Conn).Close` called by the application at any moment (every pending and later read or
                       write on the socket fails; what is already in the read buffer can still be taken).
@@ -113,7 +113,7 @@ def step (s : State) : Event → Option State
     match s.rlock, statusOf s seq, s.stream with
     | none, some .waiting, f :: _ =>
       if f.id = seen ∧ seen ≠ wire seq ∧ aloneWaiting s seq then
-        some { s with calls := setStatus s seq (.done .err) }
+        some { s with calls := setStatus s seq (.done .err), closed := true }
       else none
     | _, _, _ => none
   | .peekErr seq =>
